@@ -283,11 +283,33 @@ func Supported(f []byte) bool {
 	return w.run()
 }
 
+// Classify: supported as above, plus whether running the REAL parser on `f`
+// in-process is risky: a length field on the walked path asks for a buffer of
+// more than 256 MiB (Go's make() of an absurd size is a fatal, unrecoverable
+// "out of memory"), or the walk left the modelled grammar and a 64-bit length
+// marker follows somewhere.
+func Classify(f []byte) (supported bool, risky bool) {
+	w := &walker{b: f}
+	supported = w.run()
+	risky = w.maxAlloc > 256<<20
+	if !supported {
+		from := w.pos
+		if from > len(f) {
+			from = len(f)
+		}
+		if bytes.IndexByte(f[from:], 0x81) >= 0 || bytes.IndexByte(f[from:], 0x80) >= 0 {
+			risky = true
+		}
+	}
+	return
+}
+
 type walker struct {
-	b   []byte
-	pos int
-	bad bool // malformed or short inside the grammar: supported, model decides
-	uns bool
+	b        []byte
+	pos      int
+	bad      bool // malformed or short inside the grammar: supported, model decides
+	uns      bool
+	maxAlloc uint64 // largest buffer the real reader would make() on this path
 }
 
 func (w *walker) u8() byte {
@@ -306,6 +328,9 @@ func (w *walker) u8() byte {
 func (w *walker) skip(n uint64) {
 	if w.bad || w.uns {
 		return
+	}
+	if n > w.maxAlloc {
+		w.maxAlloc = n
 	}
 	if uint64(len(w.b)-w.pos) < n {
 		w.bad = true
